@@ -1,6 +1,6 @@
 """C19 - caller isolation: objects passed to/returned by the state never alias the store."""
 import json, os, re, copy
-import vlib
+import vlib, inmemlib
 
 
 def run(ctx):
@@ -20,7 +20,11 @@ def run(ctx):
     json.dump(progs, open(inp, "w"))
     binary = vlib.go_build_test(ctx, "c19")
     out = os.path.join(ctx.scratch, "alias.ndjson")
-    vlib.go_run(ctx, binary, "TestAlias", {"VERIF_IN": inp, "VERIF_OUT": out}, timeout=3000)
+    henv, hdir = inmemlib.traced(ctx, "alias")
+    vlib.go_run(ctx, binary, "TestAlias", dict({"VERIF_IN": inp, "VERIF_OUT": out}, **henv), timeout=3000)
+    # every later critical section on a resource compares the stored object with the model: a caller's mutation that reached the
+    # stored object (aliasing) is a difference
+    inmemlib.judge_driver(ctx, "C19", hdir, "TestAlias", max_collections=500 if ctx.tier == "quick" else 5000)
     recs = vlib.read_ndjson(out)
     traces = vlib.split_traces(recs)
     mism, consumed, vr = vlib.validate(ctx, "TraceAlias", "TraceAlias.cfg", out, timeout=3000)
